@@ -73,6 +73,12 @@ impl Accept {
             handle_server,
         )?;
 
+        #[cfg(actix_net_verif)]
+        if crate::verif::active() {
+            let accept_handle = verif_accept::adopt(accept, sockets);
+            return Ok((waker_queue, handles_server, accept_handle));
+        }
+
         let accept_handle = thread::Builder::new()
             .name("actix-server acceptor".to_owned())
             .spawn(move || accept.poll_with(&mut sockets))
@@ -127,6 +133,11 @@ impl Accept {
         let mut events = mio::Events::with_capacity(256);
 
         loop {
+            #[cfg(actix_net_verif)]
+            if crate::verif::step_boundary() {
+                return;
+            }
+
             if let Err(err) = self.poll.poll(&mut events, self.timeout) {
                 match err.kind() {
                     io::ErrorKind::Interrupted => {}
@@ -339,6 +350,9 @@ impl Accept {
             Ok(_) => {
                 // Increment counter of WorkerHandle.
                 // Set worker to unavailable with it hit max (Return false).
+                #[cfg(actix_net_verif)]
+                crate::verif::point(crate::verif::Point::SentBeforeInc(next.idx()));
+
                 if !next.inc_counter() {
                     let idx = next.idx();
                     self.avail.set_available(idx, false);
@@ -349,6 +363,9 @@ impl Accept {
             Err(conn) => {
                 // Worker thread is error and could be gone.
                 // Remove worker handle and notify `ServerBuilder`.
+                #[cfg(actix_net_verif)]
+                crate::verif::point(crate::verif::Point::SendFailed(next.idx()));
+
                 self.remove_next();
 
                 if self.handles.is_empty() {
@@ -367,6 +384,9 @@ impl Accept {
 
     fn accept_one(&mut self, mut conn: Conn) {
         loop {
+            #[cfg(actix_net_verif)]
+            crate::verif::point(crate::verif::Point::AcceptOneIter);
+
             let next = self.next();
             let idx = next.idx();
 
@@ -393,8 +413,17 @@ impl Accept {
         while self.avail.available() {
             let info = &mut sockets[token];
 
+            #[cfg(actix_net_verif)]
+            crate::verif::point(crate::verif::Point::BeforeAccept { token });
+
             match info.lst.accept() {
                 Ok(io) => {
+                    #[cfg(actix_net_verif)]
+                    crate::verif::point(crate::verif::Point::Accepted {
+                        token,
+                        peer: verif_accept::peer_of(&io),
+                    });
+
                     let conn = Conn { io, token };
                     self.accept_one(conn);
                 }
@@ -460,3 +489,7 @@ fn connection_error(e: &io::Error) -> bool {
         || e.kind() == io::ErrorKind::ConnectionAborted
         || e.kind() == io::ErrorKind::ConnectionReset
 }
+
+#[cfg(actix_net_verif)]
+#[path = "verif_accept.rs"]
+pub(crate) mod verif_accept;
